@@ -157,11 +157,16 @@ def apply_key_phase(self: CryptoContext, crypto: CryptoContext, trigger: str) ->
 def next_key_phase(self: CryptoContext) -> CryptoContext:
     algorithm = cipher_suite_hash(self.cipher_suite)
 
+    if self.version == QuicProtocolVersion.VERSION_2:
+        label = b"quicv2 ku"
+    else:
+        label = b"quic ku"
+
     crypto = CryptoContext(key_phase=int(not self.key_phase))
     crypto.setup(
         cipher_suite=self.cipher_suite,
         secret=hkdf_expand_label(
-            algorithm, self.secret, b"quic ku", b"", algorithm.digest_size
+            algorithm, self.secret, label, b"", algorithm.digest_size
         ),
         version=self.version,
     )
